@@ -9,6 +9,7 @@
 
 #include <pika/concurrency/spinlock.hpp>
 #include <pika/execution_base/this_thread.hpp>
+#include <mutex>
 
 using namespace verif;
 using pika::execution::thread_priority;
@@ -17,6 +18,8 @@ using pika::execution::thread_stacksize;
 struct slot
 {
     std::atomic<std::uint8_t> spawned{0}, entered{0}, exited{0};
+    std::atomic<std::uint8_t> stage{0};    // what the body is doing (diagnostics for the deadlock witness)
+    std::atomic<std::uint32_t> aux{0};
 };
 
 struct waitcell
@@ -42,6 +45,9 @@ static std::atomic<std::uintptr_t> g_live[LIVE];
 static std::atomic<std::uint64_t> g_live_dup{0}, g_live_checked{0};
 
 static void body(std::uint64_t id, int depth);
+static pika::concurrency::detail::spinlock g_hot_lock;    // deliberately contended
+static std::uint64_t g_hot_value = 0;
+static std::atomic<std::uint64_t> g_spinwaits{0};
 
 static std::uint64_t alloc_id()
 {
@@ -54,7 +60,8 @@ static std::uint64_t alloc_id()
     return id;
 }
 
-static void spawn(int depth, rng& r)
+// NB: no thread_local in task code - a task may resume on another worker and the compiler may reuse the TLS address
+static void spawn(int depth, rng& r, std::atomic<std::uint8_t>* g_cur_stage = nullptr)
 {
     std::uint64_t id = alloc_id();
     if (id == ~0ull) return;
@@ -79,7 +86,9 @@ static void spawn(int depth, rng& r)
             if (!t.joinable()) report.bit("thread_not_joinable");    // C13's business (shared-priority), not judged here
             if (t.joinable() && r.chance(1, 3))
             {
+                if (g_cur_stage) { g_cur_stage->store(5); }
                 t.join();
+                if (g_cur_stage) { g_cur_stage->store(1); }
                 g_joined++;
                 if ((*g_slots)[id].exited.load() != 1)
                     report.violation("C01:ledger:join-before-exit", sf("task %lu joined but exited=%u", (unsigned long) id, (*g_slots)[id].exited.load()));
@@ -97,6 +106,7 @@ static void body(std::uint64_t id, int depth)
 {
     auto& sl = (*g_slots)[id];
     sl.entered.fetch_add(1);
+    sl.stage = 1;
     rng r(g_seed * 7919 + id * 104729 + 13);
     auto self0 = pika::threads::detail::get_self_id();
     std::uintptr_t selfp = (std::uintptr_t) self0.get();
@@ -135,13 +145,49 @@ static void body(std::uint64_t id, int depth)
     if (depth > 0)
     {
         int w = 1 + (int) r.below(depth >= g_maxdepth - 1 ? 4 : 3);
-        for (int i = 0; i < w; ++i) spawn(depth - 1, r);
+        for (int i = 0; i < w; ++i)
+        {
+            spawn(depth - 1, r, &sl.stage);
+        }
+    }
+    if (r.chance(1, 10))
+    {
+        // spin-wait (yield_k escalation -> pending_boost phases) on a flag that only this, already running, parent
+        // sets: the child never waits for a task that may not have been started yet
+        auto flag = std::make_shared<std::atomic<bool>>(false);
+        std::uint64_t cid = alloc_id();
+        if (cid != ~0ull)
+        {
+            (*g_slots)[cid].spawned.fetch_add(1);
+            ex::execute(ex::thread_pool_scheduler{}, [flag, cid, depth] {
+                pika::util::yield_while([&] { return !flag->load(std::memory_order_acquire); }, "c01 spin child");
+                g_spinwaits++;
+                body(cid, depth > 0 ? depth - 1 : 0);
+            });
+            sl.stage = 2;
+            int k2 = (int) r.below(6);
+            for (int i = 0; i < k2; ++i) pika::this_thread::yield();
+            spin_us((unsigned) r.below(40));
+            flag->store(true, std::memory_order_release);
+        }
+    }
+    if (r.chance(1, 8))
+    {
+        // short critical sections under one hot pika spinlock: contended waiters escalate through yield_k
+        sl.stage = 3;
+        for (int i = 0; i < 3; ++i)
+        {
+            std::lock_guard l(g_hot_lock);
+            g_hot_value++;
+            spin_us(1 + (unsigned) r.below(3));
+        }
     }
     if (r.chance(1, 6))
     {
         // suspend and get resumed by a one-shot waker (task or, sometimes, a detached OS thread)
         auto cell = std::make_shared<waitcell>();
         bool os_waker = r.chance(1, 8);
+        sl.stage = os_waker ? 41 : 40;
         auto waker = [cell] {
             for (;;)
             {
@@ -157,7 +203,14 @@ static void body(std::uint64_t id, int depth)
                 else std::this_thread::yield();
             }
         };
-        if (os_waker) std::thread(waker).detach();
+        if (os_waker)
+        {
+            external_begin();
+            std::thread([waker] {
+                waker();
+                external_end();
+            }).detach();
+        }
         else ex::execute(ex::thread_pool_scheduler{}, waker);
         {
             std::unique_lock l(cell->m);
@@ -171,6 +224,7 @@ static void body(std::uint64_t id, int depth)
             }
         }
         g_suspends++;
+        sl.stage = 1;
     }
     if (r.chance(1, 4))
     {
@@ -226,18 +280,26 @@ int main(int argc, char** argv)
             pool.get_scheduler()->remove_scheduler_mode(pika::threads::scheduler_mode::enable_stealing);
         }
         std::vector<std::thread> ext;
+        // roots come from the main thread and the external submitters; the trees below them fill the budget
+        std::uint64_t roots = std::max<std::uint64_t>(g_cap / 12, 4) / (submitters + 1);
         for (unsigned t = 0; t < submitters; ++t)
-            ext.emplace_back([t] {
+            ext.emplace_back([t, roots] {
                 rng r(g_seed * 31 + t);
-                while (g_next.load() < g_cap) spawn(g_maxdepth, r);
+                for (std::uint64_t i = 0; i < roots; ++i)
+                {
+                    spawn(g_maxdepth, r);
+                    if ((i & 63) == 63) std::this_thread::yield();
+                }
             });
         {
             rng r(g_seed * 37 + 99);
-            while (g_next.load() < g_cap) spawn(g_maxdepth, r);
+            for (std::uint64_t i = 0; i < roots; ++i) spawn(g_maxdepth, r);
         }
         for (auto& t : ext) t.join();
+        // every id is allocated by a task that is still running (or by a joined submitter), so
+        // done == allocated means no task is left that could allocate more
+        auto wr = wait_quiescent([&] { auto d = g_done.load(); return d == g_next.load() && d == g_done.load(); }, [&] { return g_done.load(); });
         std::uint64_t total = g_next.load();
-        auto wr = wait_quiescent([&] { return g_done.load() >= total; }, [&] { return g_done.load(); });
         if (wr == wait_result::deadlock)
         {
             std::uint64_t missing = 0, first = ~0ull;
@@ -248,9 +310,10 @@ int main(int argc, char** argv)
                     if (first == ~0ull) first = i;
                 }
             report.violation("C01:ledger:dropped:deadlock",
-                sf("quiescent with %lu/%lu tasks unfinished (first id %lu entered=%u) cfg=%s %s", (unsigned long) missing,
+                sf("quiescent with %lu/%lu tasks unfinished (first id %lu entered=%u stage=%u [1 running,2 after spawning spin child,3 hot "
+                   "spinlock,40/41 suspended awaiting task/OS waker,5 joining]) cfg=%s %s", (unsigned long) missing,
                     (unsigned long) total, (unsigned long) first, first != ~0ull ? slots[first].entered.load() : 0,
-                    cfg.describe().c_str(), pool_state().c_str()));
+                    first != ~0ull ? slots[first].stage.load() : 0, cfg.describe().c_str(), pool_state().c_str()));
             bail(0);
         }
         if (wr == wait_result::stalled)
@@ -318,6 +381,8 @@ int main(int argc, char** argv)
         report.bit("cas_lost", t.hits[pv::sched_cas_lost] + t.hits[pv::sched_store_lost]);
         report.bit("helper_retry", t.hits[pv::sts_active_helper]);
         report.bit("staged", staged);
+        report.bit("pending_boost_phase", t.stored_state[7]);
+        report.add("spinwaits", g_spinwaits.load());
         std::string sig = cfg.describe() + "|" + mode + "|";
         for (auto& kv : report.bits) sig += kv.second ? "1" : "0";
         report.signature(sig);
